@@ -4,10 +4,18 @@
    Vocabulary (Proofs.v): a history is a list of operations
    [Tick d | Run request | Reset | ClearCache]; [run_ops c s ops] is the state
    after the history and the answers to its requests.  Outcome classes of an
-   answer, read off the LoopResult:
-     failureb r  = not success, not served from the cache, not CIRCUIT_OPEN
-     successb r  = success, not blocked, not served from the cache
-     blockb r    = success and blocked (an intentional block)
+   answer are by what the agents did (the LoopResult carries the executor's
+   output; an agent exception is the ERROR result without one):
+     failureb r  = fresh, blocked, and either the executor's verdict is FAILURE
+                   (whatever the assessor said, whatever the gate logic) or an
+                   agent raised
+     successb r  = fresh and not blocked
+     blockb r    = intentional block: blocked with an executor verdict other than
+                   FAILURE and nobody raised (assessor BLOCK, executor BLOCK, OR
+                   "both rejected", EXECUTOR_PRIORITY/MAJORITY "signal mismatch",
+                   unknown verdicts), fresh or served from the cache
+   [legacy c = false], [interim c = false] select the classification rule of the
+   current code (3c979ee); see Model.v.
    [requests_only] = no manual reset / clear_cache in the history,
    [monotone] = the clock never goes back,
    [probe_state c s] = HALF_OPEN, or OPEN with now - last_failure >= timeout. *)
@@ -26,10 +34,12 @@ Print Assumptions c08_invariant_reachable.
    manual reset, successful probe): whenever it is not CLOSED afterwards, and
    whenever it has tripped in between, at least failure_threshold requests have
    failed since then; the count itself has reached the threshold and a last
-   failure time is recorded.  Any threshold, enabled or not, either
-   classification. *)
+   failure time is recorded.  Any threshold, any gate logic, enabled or not
+   (also true of the pre-044cd88 rule; false of the interim one, see
+   Examples.c08_interim_blocks_counted_refuted). *)
 Theorem c08_open_implies_threshold_reached :
   forall c s ops s' rs,
+    interim c = false ->
     circ (br s) = Closed -> fcount (br s) = 0 ->
     run_ops c s ops = (s', rs) ->
     (circ (br s') <> Closed ->
@@ -39,12 +49,13 @@ Theorem c08_open_implies_threshold_reached :
 Proof. exact open_implies_threshold_proof. Qed.
 Print Assumptions c08_open_implies_threshold_reached.
 
-(* From any state, once failure_threshold requests in a row have failed (clock
-   advances and cache clearing in between allowed, no manual reset) the breaker
-   is OPEN. *)
+(* From any state, once failure_threshold requests in a row have failed
+   (executor FAILURE behind a blocked result under any gate logic and any assessor
+   verdict, or an agent exception; clock advances and cache clearing in between
+   allowed, no manual reset) the breaker is OPEN. *)
 Theorem c08_opens_after_n_consecutive_failures :
   forall c s ops s' rs,
-    legacy c = false -> 1 <= threshold c -> 0 <= fcount (br s) ->
+    legacy c = false -> interim c = false -> 1 <= threshold c -> 0 <= fcount (br s) ->
     no_reset ops -> run_ops c s ops = (s', rs) ->
     Forall (fun r => failureb r = true) rs ->
     threshold c <= Z.of_nat (length rs) ->
@@ -93,7 +104,7 @@ Print Assumptions c08_probe_success_closes_and_clears.
    full timeout after it. *)
 Theorem c08_probe_failure_reopens_and_restarts :
   forall c s r s' o,
-    legacy c = false -> enabled c = true -> probe_state c s ->
+    legacy c = false -> interim c = false -> enabled c = true -> probe_state c s ->
     run_req c s r = (s', o) -> failureb o = true ->
     circ (br s') = Open /\ last_failure (br s') = Some (now s') /\
     trips (br s') = trips (br s) + 1 /\ fcount (br s') = fcount (br s) + 1 /\
@@ -104,12 +115,14 @@ Theorem c08_probe_failure_reopens_and_restarts :
 Proof. exact probe_failure_proof. Qed.
 Print Assumptions c08_probe_failure_reopens_and_restarts.
 
-(* Histories in which every answer is an intentional block (blocked but
-   successful, fresh or cached) never change the failure count, the trip count
-   or the last-failure time, and move the circuit at most from OPEN to HALF_OPEN
-   (admission of a probe); in particular CLOSED stays CLOSED. *)
+(* Histories in which every answer is an intentional block (any blocked result
+   whose executor verdict is not FAILURE, under all six gate logics, fresh or
+   cached) never change the failure count, the trip count or the last-failure
+   time, and move the circuit at most from OPEN to HALF_OPEN (admission of a
+   probe); in particular CLOSED stays CLOSED. *)
 Theorem c08_blocks_not_failures :
   forall c ops s s' rs,
+    interim c = false ->
     requests_only ops -> run_ops c s ops = (s', rs) ->
     Forall (fun r => blockb r = true) rs ->
     fcount (br s') = fcount (br s) /\ trips (br s') = trips (br s) /\
